@@ -6,6 +6,7 @@
 #include <etl/_chrono/duration_values.hpp>
 #include <etl/_chrono/treat_as_floating_point.hpp>
 #include <etl/_cstdint/int_least_t.hpp>
+#include <etl/_cstdint/intmax_t.hpp>
 #include <etl/_numeric/gcd.hpp>
 #include <etl/_numeric/lcm.hpp>
 #include <etl/_ratio/ratio.hpp>
@@ -86,7 +87,11 @@ struct duration {
             or (ratio_divide<Period2, period>::den == 1 and not treat_as_floating_point_v<Rep2>)
         )
     constexpr duration(duration<Rep2, Period2> const& other) noexcept
-        : _rep(static_cast<Rep>(other.count() * ratio_divide<Period2, period>::num))
+        : _rep(static_cast<Rep>(
+              static_cast<common_type_t<Rep, Rep2, intmax_t>>(other.count())
+              * static_cast<common_type_t<Rep, Rep2, intmax_t>>(ratio_divide<Period2, period>::num)
+              / static_cast<common_type_t<Rep, Rep2, intmax_t>>(ratio_divide<Period2, period>::den)
+          ))
     {
     }
 
